@@ -19,7 +19,10 @@ Requests (`n` = size of the alphabet, `falsy` = leaf classes that are false in b
   {"op":"assoc","n":n,"level":l,"a":D,"b":D,"c":D} -> {"abc":D,"ab_c":D,"a_bc":D,"perms":[D x 6],"fold2":D}
   {"op":"paths","d":D,"o":D,"paths":[[k,..],..]}   -> {"r":[{"u":b,"gd":{"v":V}|null,"gu":{"v":V}|null,"go":…}, …]}
       (u = untouchedL o p, gd = getPath d p, gu = getPath (updL d o) p, go = getPath o p)
-  {"op":"tok","n":n,"a":T,"b":D,"c":c,"levels":[..],"falsy":[..]} -> {"r":[{"inter":T,"diff":T}, … per level]}
+  {"op":"tok","n":n,"a":T,"b":T,"c":c,"levels":[..],"falsy":[..]} -> {"r":[{"inter":T,"diff":T,"ilog":[ids],"dlog":[ids],…}, … per level]}
+  {"op":"tokn","n":n,"level":l,"args":[T..],"c":c} -> {"r":T,"log":[ids]}      (intersection of any number of arguments)
+  {"op":"mutseq","d":T,"others":[T..],"c":c} -> {"steps":[{"d":T,"log":[ids]}..]}   (successive update_recursively on one d)
+  {"op":"cyc","key_in_d":b} -> {"ok":true} | {"e":"LenaValueError"}              (self-referential other of update_nested)
       token model: T = {"t":id,"s":[T|null,…]} (dictionary object) | {"l":class,"t":[ids]} (leaf and the mutable
       objects it consists of); `c` = first unused identity; identities >= c in the reply (new objects) are written -1
   {"op":"ustr","n":n,"d":V,"other":{"v":V}|{"s":{"empty":b,"keys":[k..],"last":class}},"value":{"v":V}|null}
@@ -85,39 +88,30 @@ partial def ofTVal (c0 : Nat) : TVal Int → Json
       ("s", Json.arr (l.map (fun | none => Json.null | some v => ofTVal c0 v)).toArray)]
 where norm (c0 t : Nat) : Json := if t ≥ c0 then ofInt (-1) else ofNat t
 
-def tokAt (truthy : Int → Bool) (n c : Nat) (a : TVal Int) (b : Slots Int) (lv : Int) : Json :=
-  let d0 := match a with
-    | .dict t l => some (t, l)
-    | .leaf _ _ => none
-  let ti := (interT n lv c d0 [b]).1
-  let td := (diffTV truthy lv a (.dict b) c).1
+def logJson (c : Nat) (l : List Nat) : Json := Json.arr (l.map (normTok c)).toArray
+
+def subsJson (c : Nat) (v : TVal Int) : Json :=
+  Json.arr ((subsV v).map (fun s => match rootTok s with | some t => normTok c t | none => Json.null)).toArray
+
+def tokAt (truthy : Int → Bool) (n c : Nat) (a b : TVal Int) (lv : Int) : Json :=
+  let ti := (interArgs n lv c [a, b]).1
+  let td := (diffArgs truthy lv a b c).1
   Json.mkObj [
     ("inter", ofTVal c ti), ("diff", ofTVal c td),
+    -- the statements that store into / delete from a dictionary, by the identity of that dictionary
+    ("ilog", logJson c (interArgsLog lv c [a, b])), ("dlog", logJson c (diffArgsLog truthy lv a b c)),
     -- the vocabulary of the theorems, executed: identities reachable from the results, values without identities
-    ("itoks", Json.arr ((toksV ti).map (normTok c)).toArray), ("dtoks", Json.arr ((toksV td).map (normTok c)).toArray),
-    ("ierase", ofVal (eraseV ti)), ("derase", ofVal (eraseV td)),
-    ("dsubs", Json.arr ((subsV td).map (fun s => match rootTok s with | some t => normTok c t | none => Json.null)).toArray)]
+    ("itoks", logJson c (toksV ti)), ("dtoks", logJson c (toksV td)),
+    ("ierase", ofVal (eraseV ti)), ("derase", ofVal (eraseV td)), ("dsubs", subsJson c td)]
 
-def ofOutX : OutX (Slots Int) → Json
-  | .ok l => Json.mkObj [("r", ofDict l)]
-  | .lenaTypeError => Json.mkObj [("e", "LenaTypeError")]
-  | .lenaValueError => Json.mkObj [("e", "LenaValueError")]
-  | .typeError => Json.mkObj [("e", "Other:TypeError")]
-
-def toOptVal (j : Json) : Option (Option (Val Int)) :=
-  if j.isNull then some none else (toVal (getD j "v")).map some
-
-def toOther (j : Json) : Option (Other Int) :=
-  match j.getObjVal? "s" with
-  | .ok s => do
-    let e ← bool? (getD s "empty")
-    let ks ← natList? (getD s "keys")
-    let l ← int? (getD s "last")
-    some (.str e ks l)
-  | .error _ => (toVal (getD j "v")).map Other.val
-
-def dictList? (j : Json) : Option (List (Slots Int)) :=
-  (arr? j).bind (fun a => a.toList.mapM toDict)
+/-- successive `update_recursively(d, other_i)` on one `d` -/
+def mutSeq (c : Nat) : TVal Int → List (TVal Int) → Nat → List Json
+  | _, [], _ => []
+  | d, o :: os, k =>
+    match updT d o k with
+    | some st =>
+      Json.mkObj [("d", ofTVal c st.val), ("log", logJson c st.log)] :: mutSeq c st.val os st.next
+    | none => [Json.mkObj [("e", "LenaTypeError")]]
 
 def pathAt (d o : Slots Int) (p : List Nat) : Json :=
   Json.mkObj [
@@ -194,9 +188,9 @@ def handle (j : Json) : Json :=
       else err "assoc: not well-formed"
     | _, _, _, _, _ => err "bad assoc args"
   | some "tok" =>
-    match nat? (getD j "n"), nat? (getD j "c"), toTVal (getD j "a"), toDict (getD j "b"), intList? (getD j "levels") with
+    match nat? (getD j "n"), nat? (getD j "c"), toTVal (getD j "a"), toTVal (getD j "b"), intList? (getD j "levels") with
     | some n, some c, some a, some b, some lvs =>
-      if wfB n (eraseV a) && wfB n (.dict b) && (eraseV a).isDict then
+      if wfB n (eraseV a) && wfB n (eraseV b) && (eraseV a).isDict && (eraseV b).isDict then
         Json.mkObj [("r", Json.arr (lvs.map (tokAt (truthyOf j) n c a b)).toArray)]
       else err "tok: not well-formed"
     | _, _, _, _, _ => err "bad tok args"
@@ -266,6 +260,27 @@ def handle (j : Json) : Json :=
           ("erase", ofVal (eraseV d'))]
       | _ => Json.mkObj [("e", "Other:TypeError")]
     | _, _, _, _ => err "bad mutnest args"
+  | some "tokn" =>
+    match nat? (getD j "n"), nat? (getD j "c"), int? (getD j "level"),
+        (arr? (getD j "args")).bind (fun a => a.toList.mapM toTVal) with
+    | some n, some c, some lv, some args =>
+      if args.all (fun a => wfB n (eraseV a) && (eraseV a).isDict) then
+        Json.mkObj [("r", ofTVal c (interArgs n lv c args).1), ("log", logJson c (interArgsLog lv c args))]
+      else err "tokn: not well-formed"
+    | _, _, _, _ => err "bad tokn args"
+  | some "mutseq" =>
+    match toTVal (getD j "d"), (arr? (getD j "others")).bind (fun a => a.toList.mapM toTVal), nat? (getD j "c") with
+    | some d, some os, some c => Json.mkObj [("steps", Json.arr (mutSeq c d os c).toArray)]
+    | _, _, _ => err "bad mutseq args"
+  | some "cyc" =>
+    match bool? (getD j "key_in_d") with
+    | some b =>
+      match updateNestedCyclic b with
+      | .ok _ => Json.mkObj [("ok", Json.bool true)]
+      | .lenaValueError => Json.mkObj [("e", "LenaValueError")]
+      | .lenaTypeError => Json.mkObj [("e", "LenaTypeError")]
+      | .typeError => Json.mkObj [("e", "Other:TypeError")]
+    | none => err "bad cyc args"
   | some "paths" =>
     match toDict (getD j "d"), toDict (getD j "o"), (arr? (getD j "paths")).bind (fun a => a.toList.mapM natList?) with
     | some d, some o, some ps => Json.mkObj [("r", Json.arr (ps.map (pathAt d o)).toArray)]
